@@ -38,6 +38,7 @@ pub fn nontramp_htlc(npay: usize) -> impl Strategy<Value = HtlcSpec> {
         0u8..npay as u8,
         prop_oneof![
             3 => Just((true, Meta::Normal, false)),          // plain forward carrying a valid trampoline request
+            2 => Just((false, Meta::Normal, false)),         // valid trampoline metadata; only non-trampoline when forward_msat is absent (filtered by the classifier otherwise)
             2 => Just((true, Meta::Absent, false)),          // plain forward
             2 => Just((false, Meta::Absent, false)),         // final hop without TLV 16
             1 => Just((false, Meta::NotUtf8, false)),
@@ -52,13 +53,15 @@ pub fn nontramp_htlc(npay: usize) -> impl Strategy<Value = HtlcSpec> {
         extra_records(),
         1u64..3_000_000,
         any::<bool>(),
+        prop_oneof![5 => Just(false), 1 => Just(true)],
     )
-        .prop_map(move |(pay, (forward, meta, other_hash), extra, amount, with_total)| HtlcSpec {
+        .prop_map(move |(pay, (forward, meta, other_hash), extra, amount, with_total, no_forward_msat)| HtlcSpec {
             pay,
             hash_of: if other_hash { Some((pay + 1) % (npay as u8).max(2)) } else { None },
             amount_msat: amount,
             total_msat: if with_total { Some(amount) } else { None },
-            forward_msat: Some(amount),
+            // a well-formed trampoline request *without* forward_msat is not a trampoline request either
+            forward_msat: if no_forward_msat { None } else { Some(amount) },
             cltv_expiry: 1000 + 1100,
             cltv_rel: 1100,
             forward,
@@ -103,6 +106,7 @@ pub fn blank(payments: Vec<PaymentSpec>, htlcs: Vec<HtlcSpec>, seed: u64) -> Sce
         manual_getinfo: false,
         crash_at: vec![],
         freeze: None,
+        hold: vec![],
     }
 }
 
@@ -199,6 +203,9 @@ fn meta_strategy() -> impl Strategy<Value = Meta13> {
     let prof = Profile { crashes: false, write_faults: false, read_faults: false, heights: false, w_nontramp: 0, w_hash_mismatch: 0, w_self_hint: 0, steps: 0..1, max_payments: 2, ..Profile::default() };
     (scenario_strategy(prof), proptest::collection::vec((any::<u16>(), nontramp_htlc(2)), 1..4)).prop_map(|(mut base, inserts)| {
         base.steps.clear();
+        // the relation needs a race-free base: no withheld RPCs (a withheld state fetch lets a funded set and a
+        // rejecting HTLC race in the lifecycle's select!, whose random choice is legitimately run-dependent)
+        base.hold.clear();
         Meta13 { base, inserts }
     })
 }
